@@ -138,14 +138,34 @@ def unwrap(t):
     return t
 
 
+def confined_parts(t):
+    """confined sub-terms of a term (not looking inside them)"""
+    t = unwrap(t)
+    if t[0] == "confined":
+        return [t]
+    out = []
+    cs = t[2] if (t[0] == "call" and t[3] is None) else children(t)
+    for c in cs:
+        out += confined_parts(c)
+    return out
+
+
 def unsafe(t):
-    """DEX-derived leaves that reach the path without passing a recognised sanitizer"""
+    """DEX-derived leaves that reach the path without passing a recognised sanitizer.
+    A containment check vouches for exactly the value that was checked: the checked value itself, os.path.join(checked, ...)
+    and -- only if the check excludes the root itself -- checked + <DEX-independent suffix> stay inside; every other value
+    derived from a checked one afterwards (slice, replace, format, suffix after a check that admits the root, ...) is unchecked."""
     t = unwrap(t)
     k = t[0]
     if k == "confined":
         return set()
     if k == "saferel":
         return leaves(t[1])  # only safe as a non-first argument of join (handled there)
+    if k == "op" and t[1] == "phi":
+        out = set()
+        for x in t[2]:
+            out |= unsafe(x)
+        return out
     if k == "op" and t[1] == "join":
         out = set()
         for i, a in enumerate(t[2]):
@@ -157,21 +177,38 @@ def unsafe(t):
                     continue
                 out |= unsafe(x)
         return out
+    if k == "op" and (t[1] == "str" or t[1].startswith("norm:")) and len(t[2]) == 1:
+        return unsafe(t[2][0])
+    if k == "op" and t[1] == "concat" and t[2]:
+        head = unwrap(t[2][0])
+        heads = [unwrap(x) for x in head[2]] if (head[0] == "op" and head[1] == "phi") else [head]
+        rest = t[2][1:]
+        if all(h[0] == "confined" and h[3] for h in heads) and not any(is_tainted(x) for x in rest):
+            return set()  # strictly inside the root + trusted suffix
+        out = set()
+        for x in t[2]:
+            ux = unwrap(x)
+            uxs = [unwrap(y) for y in ux[2]] if (ux[0] == "op" and ux[1] == "phi") else [ux]
+            for y in uxs:
+                out |= leaves(y[2]) if y[0] == "confined" else unsafe(y)
+        return out
     if k == "dex":
         return {t[1]}
     if k == "par" and t[1] in TAINT_ROOTS:
         return {"session " + t[1]}
-    if k == "call":
-        if t[3] is not None:
-            return unsafe(t[3])
-        out = set()
-        for c in t[2]:
-            out |= unsafe(c)
-        return out
+    # any other value computed from a checked one is not the checked value any more
     out = set()
-    for c in children(t):
-        out |= unsafe(c)
+    cs = t[2] if k == "call" else children(t)
+    for c in cs:
+        uc = unwrap(c)
+        out |= leaves(uc[2]) if uc[0] == "confined" else unsafe(uc)
     return out
+
+
+def derived_after_check(t):
+    """does an unsafe path contain a checked part that was modified afterwards (for the message)"""
+    t = unwrap(t)
+    return t[0] != "confined" and bool(confined_parts(t))
 
 
 def partial_sanitizers(t, out=None):
@@ -220,7 +257,8 @@ def _render(t):
     if k == "unknown":
         return "?%s" % t[1]
     if k == "confined":
-        return "confined(%s)" % r(t[2])
+        # what was checked does not matter for the identity of a finding, only that (and how) it was checked
+        return "%s(%s)" % ("checked" if t[3] else "checked_or_root", ", ".join("<%s>" % x for x in sorted(leaves(t[2]))))
     if k == "saferel":
         return "safe_rel(%s)" % r(t[1])
     if k == "star":
@@ -228,7 +266,7 @@ def _render(t):
     if k == "call":
         # a small inlined helper is shown by what it computes (so that extracting/inlining a helper keeps the text),
         # a large one (clean_file_name, method2format ...) by its name
-        if t[3] is not None and size(t[3]) <= SMALL:
+        if t[3] is not None and (size(t[3]) <= SMALL or unwrap(t)[0] == "confined"):
             return r(t[3])
         return "%s(%s)" % (t[1], ", ".join(r(a) for a in t[2]))
     if k == "op":
@@ -649,13 +687,13 @@ class Exec:
         return None
 
     def inside_test(self, t):
-        """positive containment test -> (cand expr, root expr) or None"""
+        """positive containment test -> (cand expr, root expr, strict) or None ; strict = the root itself is rejected"""
         # N(cand).startswith(N(root) + sep)
         if isinstance(t, ast.Call) and isinstance(t.func, ast.Attribute) and t.func.attr == "startswith" and len(t.args) == 1:
             cand, ok = self.normalised(t.func.value)
             root = self.with_sep(t.args[0])
             if ok and root is not None:
-                return cand, self.normalised(root)[0]
+                return cand, self.normalised(root)[0], True
             return None
         # commonpath([a, b]) == N(root)
         if isinstance(t, ast.Compare) and len(t.ops) == 1 and isinstance(t.ops[0], ast.Eq):
@@ -667,24 +705,24 @@ class Exec:
                     ta, tb = self.term_of_path(a), self.term_of_path(b)
                     for root_e, cand_e, troot in ((a, b, ta), (b, a, tb)):
                         if troot == rt and self.normalised(cand_e)[1] and self.normalised(root_e)[1]:
-                            return self.normalised(cand_e)[0], self.normalised(root_e)[0]
+                            return self.normalised(cand_e)[0], self.normalised(root_e)[0], False
             return None
         # N(cand) == N(root) or <inside>
         if isinstance(t, ast.BoolOp) and isinstance(t.op, ast.Or):
             found = [self.inside_test(v) for v in t.values]
             good = [f for f in found if f]
             if len(good) == 1 and all(f or self.is_same_path_eq(v, good[0]) for f, v in zip(found, t.values)):
-                return good[0]
+                return good[0][0], good[0][1], False
         return None
 
-    def is_same_path_eq(self, v, pair):
-        if isinstance(v, ast.Compare) and len(v.ops) == 1 and isinstance(v.ops[0], ast.Eq):
+    def is_same_path_eq(self, v, pair, op=ast.Eq):
+        if isinstance(v, ast.Compare) and len(v.ops) == 1 and isinstance(v.ops[0], op):
             ts = {self.term_of_path(v.left), self.term_of_path(v.comparators[0])}
             return ts == {self.term_of_path(pair[0]), self.term_of_path(pair[1])}
         return False
 
     def guard(self, test):
-        """-> ('inside'|'outside', cand expr, root expr) or None"""
+        """-> ('inside'|'outside', cand expr, root expr, strict) or None"""
         if isinstance(test, ast.UnaryOp) and isinstance(test.op, ast.Not):
             g = self.guard(test.operand)
             if g:
@@ -694,10 +732,22 @@ class Exec:
             pos = ast.Compare(left=test.left, ops=[ast.Eq()], comparators=test.comparators)
             p = self.inside_test(pos)
             return ("outside",) + p if p else None
+        if isinstance(test, ast.BoolOp):
+            # outside: <cand == root> or <not inside>      inside: <cand != root> and <inside>
+            want, eqop = ("outside", ast.Eq) if isinstance(test.op, ast.Or) else ("inside", ast.NotEq)
+            subs = [(v, self.guard(v)) for v in test.values]
+            good = [g for _v, g in subs if g and g[0] == want]
+            if good and all(g is not None and g[0] == want and self.same_pair(g, good[0]) or (g is None and self.is_same_path_eq(v, good[0][1:3], eqop))
+                            for v, g in subs):
+                strict = any(g is None for _v, g in subs) or all(g[3] for g in good)
+                return (want, good[0][1], good[0][2], strict)
         p = self.inside_test(test)
         return ("inside",) + p if p else None
 
-    def confine(self, env, cand_e, root_e):
+    def same_pair(self, g, h):
+        return self.term_of_path(g[1]) == self.term_of_path(h[1]) and self.term_of_path(g[2]) == self.term_of_path(h[2])
+
+    def confine(self, env, cand_e, root_e, strict=False):
         root_t = self.term_of_path(root_e)
         if is_tainted(root_t):
             return False
@@ -708,7 +758,7 @@ class Exec:
             while base[0] == "op" and base[1].startswith("norm:") and len(base[2]) == 1:
                 base = base[2][0]
             if base == cand_t and is_tainted(v):
-                env[k] = ("confined", root_t, v)
+                env[k] = ("confined", root_t, v, bool(strict))
                 hit = True
         return hit
 
@@ -788,8 +838,8 @@ class Exec:
             self.ev_effects(s.test) if isinstance(s.test, (ast.Compare, ast.BoolOp, ast.UnaryOp)) else self.ev(s.test)
             t_env, f_env = dict(self.env), dict(self.env)
             if g:
-                kind, cand, root = g
-                if self.confine(t_env if kind == "inside" else f_env, cand, root):
+                kind, cand, root, strict = g
+                if self.confine(t_env if kind == "inside" else f_env, cand, root, strict):
                     self.guards += 1
             a = self.branch(s.body, t_env)
             b = self.branch(s.orelse, f_env)
@@ -902,7 +952,10 @@ def core(sink, world, module, fnode):
             partial_sanitizers(t, through)
         msg = ("DEX-controlled %s reach%s the path of %s unsanitised: %s" % (", ".join("<%s>" % b for b in sorted(bad)), "es" if len(bad) == 1 else "",
                h.label if not h.via else "%s (inside %s)" % (h.label, " -> ".join(h.via)), shown))
-        if through:
+        if any(derived_after_check(t) for t in terms):
+            msg += ("; the value that reaches the sink is not the value that was checked: it is derived from it afterwards, and a check that admits the "
+                    "root itself (commonpath == root) does not cover <root> + suffix (a sibling of the output directory)")
+        elif through:
             msg += "; passes through %s, none of which confines the path (a `..`/absolute segment survives)" % ", ".join(through)
         sink.check("path-sink", "%s at %s" % (h.label, "/".join(h.via) or fnode.name), not bad, construct, msg, node=h.node,
                    witness=dict(sources=sorted(bad), path=shown, sink=h.label, via=list(h.via)),
@@ -1026,7 +1079,7 @@ def _thorough(ctx, m, f, base_sink):
     for label, overrides, breaking in _mutants(m):
         if breaking == "if-unconfined":
             # dropping a partial transformer only matters while the path is not confined by a containment check
-            if not base:
+            if not any("checked" not in k[1] for k in base):
                 continue
             breaking = True
         s = Sink()
@@ -1085,7 +1138,8 @@ _REPAIRS = {
     "containment helper": '''
 def _inside(root, path):
     root = os.path.realpath(root)
-    if os.path.commonpath([root, os.path.realpath(path)]) != root:
+    resolved = os.path.realpath(path)
+    if resolved == root or os.path.commonpath([root, resolved]) != root:
         raise ValueError(path)
     return path
 
